@@ -157,6 +157,73 @@ def statusAware : List Ev → List Ev
 def requestTrace (v : Variant) (tr : List Ev) : List Ev :=
   match v with | .pinned => tr | .fixed => statusAware tr
 
+/-! ### The collector's clean-up pass (`Collector.tryCleanup` / `cleanup`)
+
+Per-endpoint data (gauge, counters, `lastUsed`) lives in a map entry created on first use
+(`getOrInitEndpoint`: `lastUsed = now`).  `RecordRequest` refreshes `lastUsed`
+(`updateEndpointStats`) and then, at most once per `CleanupInterval`, runs `cleanup`, which deletes
+every entry whose `lastUsed` is older than `EndpointTTL`.  `RecordConnection` does NOT refresh
+`lastUsed`.  A deleted entry reads as gauge 0 (`GetConnectionStats` has no row for it) and is
+re-created at 0 by the next `RecordConnection`.
+
+  * `.dropIdle`     — the pinned tree: an idle entry is deleted whatever its gauge says
+  * `.keepInFlight` — an entry with connections in flight is never deleted
+-/
+
+inductive CleanupVariant | dropIdle | keepInFlight
+deriving Repr, DecidableEq, Inhabited
+
+/-- The tree under verification. -/
+def activeCleanup : CleanupVariant := .keepInFlight
+
+structure Entry where
+  gauge : Int
+  lastUsed : Int
+deriving Repr, DecidableEq, Inhabited
+
+/-- The collector's endpoint map. (A structure around the lookup function, so that a step computes
+    the new entry once, when the step is taken, and not again on every lookup.) -/
+structure CState where
+  get : Nat → Option Entry
+
+/-- What happens at the collector over time: an event of some request's attempt at time `t`, or a clean-up pass. -/
+inductive CEv where
+  | ev (x : Ev) (t : Int)
+  | sweep (t : Int)
+deriving Repr, Inhabited
+
+def entryOf (st : CState) (e : Nat) (t : Int) : Entry := (st.get e).getD ⟨0, t⟩
+
+def setEntry (st : CState) (e : Nat) (en : Entry) : CState := ⟨fun e' => if e' = e then some en else st.get e'⟩
+
+def droppable (v : CleanupVariant) (ttl : Int) (en : Entry) (t : Int) : Bool :=
+  decide (en.lastUsed < t - ttl) && (match v with | .dropIdle => true | .keepInFlight => en.gauge == 0)
+
+def cstep (v : CleanupVariant) (ttl : Int) (st : CState) : CEv → CState
+  | .ev (.inc e) t => let en := entryOf st e t; setEntry st e { en with gauge := en.gauge + 1 }
+  | .ev (.dec e) t => let en := entryOf st e t; setEntry st e { en with gauge := if en.gauge - 1 < 0 then 0 else en.gauge - 1 }
+  | .ev (.recSuccess e) t => let en := entryOf st e t; setEntry st e { en with lastUsed := t }
+  | .ev (.recFailure e) t => let en := entryOf st e t; setEntry st e { en with lastUsed := t }
+  | .ev _ _ => st
+  | .sweep t => ⟨fun e => match st.get e with
+    | some en => if droppable v ttl en t then none else some en
+    | none => none⟩
+
+def runC (v : CleanupVariant) (ttl : Int) : CState → List CEv → CState
+  | st, [] => st
+  | st, x :: rest => runC v ttl (cstep v ttl st x) rest
+
+/-- `GetConnectionStats()[endpoint]` (a missing row reads 0). -/
+def reported (st : CState) (e : Nat) : Int := match st.get e with | some en => en.gauge | none => 0
+
+/-- The attempt events of a history, clean-up passes and time stamps dropped. -/
+def evsOf : List CEv → List Ev
+  | [] => []
+  | .ev x _ :: rest => x :: evsOf rest
+  | .sweep _ :: rest => evsOf rest
+
+def CState.empty : CState := ⟨fun _ => none⟩
+
 /-! ### What the client of one request saw (C02: the transcript is the serving attempt's) -/
 
 /-- The client received a complete response with a success (< 400) status. -/
